@@ -333,7 +333,7 @@ pub fn check(s: &dyn Scenario, opts: &CheckOpts) -> i32 {
                     Err(_) => None,
                 }
             },
-            Duration::from_secs(20),
+            Duration::from_secs(60),
         );
         let (final_out, _) = run_guarded(s, kind, opts.tier, Tape::replay(shrunk.clone()), true)
             .unwrap_or_else(|_| (RunOut::default(), Vec::new()));
